@@ -400,8 +400,7 @@ def run(ctx):
     proved = (not msgs) and prove(ctx, "C03", extra_targets=["Proofs/C03_tac.vo"])
     # auxiliary composition (Props/C03_aux.v): the SPDC forwarders on this property's model; accounted for separately
     auxprops.prove_aux(ctx, "C03", ["wrapbase", "wrap_SPDC_delta_k", "wrap_SPDC_optimum_idler", "wrap_SPDC_assign_optimum_idler",
-                                    "wrap_SPDC_with_optimum_idler", "wrap_SPDC_optimum_crystal_theta", "wrap_SPDC_assign_optimum_crystal_theta",
-                                    "wrap_SPDC_with_optimum_crystal_theta"])
+                                    "wrap_SPDC_assign_optimum_crystal_theta"])
     # the refuted-finding lemmas are outside the property's obligations: when they stop compiling, only note it
     if not msgs:
         okf, ff, _ = coq_build(ctx, ["Findings/C03_negative_theta.vo"])
